@@ -29,6 +29,7 @@ def Judge (cs : List Con) : Op → Out → Prop
   | .add _, .cons _ => True
   | .simplify, .cons _ => True
   | .downsize, .unit => True
+  | .pickle, .unit => True
   | .branch, .newSolver _ => True
   | .satisfiable extra, .bool b => (b = true ↔ Satisfiable (cs ++ extra))
   | .eval e n extra, .vals vs =>
@@ -77,6 +78,7 @@ def judgeModels (ms : List Asg) (op : Op) (out : Out) : Option String :=
   | .add _, .cons _ => none
   | .simplify, .cons _ => none
   | .downsize, .unit => none
+  | .pickle, .unit => none
   | .branch, .newSolver _ => none
   | .satisfiable _, .bool b => chk (b == !ms.isEmpty) "wrong-sat"
   | .eval e n _, .vals vs =>
